@@ -855,7 +855,9 @@ def sync_projects(
         clone_copytree = proxy.copytree
     else:
         # Files matching the exclude pattern are not copied into new jobs either.
-        exclude_patterns = exclude if isinstance(exclude, list) else [exclude]
+        # (a copy: sync_jobs() appends the state point and document file names
+        # to a list passed as exclude argument, and those must still be cloned)
+        exclude_patterns = list(exclude) if isinstance(exclude, list) else [exclude]
 
         def _ignore_excluded(path, names):
             return [n for n in names if any(re.match(p, n) for p in exclude_patterns)]
